@@ -249,6 +249,8 @@ class Lean:
             ish, osh, rep = list(sub.input_shape), list(sub.output_shape), c["replicates"]
             ia = c["input_axis"] if c["input_axis"] >= 0 else len(ish) + 1 + c["input_axis"]
             oa = ia if c["output_axis"] is None else c["output_axis"]
+            if oa < 0:
+                oa = len(osh) + 1 + oa
             in_sh = ish[:ia] + [rep] + ish[ia:]
             # move the replication axis to the front, block-diagonal of `rep` copies, move it to output_axis
             perm_in = [ia] + [a for a in range(len(in_sh)) if a != ia]
@@ -593,7 +595,21 @@ def check_config(ctx, lean, oracle, name, c, op):
         dft_checks(ctx, lean, oracle, c, op, case)
     if name in ("AngularSpectrumPropagator", "FresnelPropagator"):
         optics_checks(ctx, lean, oracle, name, c, op, case)
-    if name == "XRayTransform3D" and c["voxel_spacing"] is None and c["det_spacing"] is None and list(c["det_shape"]) == list(c["shape"][:2]):
+    if name == "XRayTransform3D" and "matrices" in c:
+        # hand-written axis-aligned views: the documented convention makes them plain sums along one axis
+        perms = {((1, 0, 0, 0), (0, 1, 0, 0)): lambda a: a.sum(axis=2), ((0, 1, 0, 0), (0, 0, 1, 0)): lambda a: a.sum(axis=0),
+                 ((0, 0, 1, 0), (1, 0, 0, 0)): lambda a: a.sum(axis=1).T}
+        for v, Mh in enumerate(c["matrices"]):
+            key = tuple(tuple(float(t) for t in row) for row in Mh)
+            if key in perms:
+                x = common.dyadic(ctx.rng, tuple(c["shape"]), bits=3, scale=2.0)
+                y = np.asarray(op(opgrid.unflat(x.ravel(), op.input_shape, np.float64)))[v]
+                ctx.count("xray3d-handwritten-axis-sum")
+                if not _close(y, perms[key](x), 1e-6):
+                    ctx.disagree("linops.XRayTransform3D.axis_sum", dict(case, view=v), _summ(y), _summ(perms[key](x)), oracle=oracle,
+                                 note="hand-written axis-aligned projection matrix (documented convention) does not give the sum along the axis")
+                    return
+    if name == "XRayTransform3D" and "matrices" not in c and c["voxel_spacing"] is None and c["det_spacing"] is None and list(c["det_shape"]) == list(c["shape"][:2]):
         # identity rotation: voxel (i,j,k) lands exactly on detector pixel (i,j): the view is the sum along axis 2
         for v, ang in enumerate(c["angles"]):
             if all(a == 0.0 for a in ang):
